@@ -330,6 +330,9 @@ with tempfile.TemporaryDirectory(prefix="jasmverif_") as d:
         try:
             m = MasterOfPuppets(MatchConfig(pattern_pathstr=p, input_file=a, return_mode=MatchingReturnMode.matched_addrs_list, matching_mode=MatchingSearchMode.all_finds, macros=mpaths))
             full = m.perform_matching()
+            again = m.perform_matching()      # the same object once more: same answer
+            if again != full:
+                full = ["SECOND RUN OF THE SAME OBJECT DIFFERS", full, again]
             m2 = MasterOfPuppets(MatchConfig(pattern_pathstr=p, input_file=a, return_only_address=True, return_mode=MatchingReturnMode.matched_addrs_list, matching_mode=MatchingSearchMode.all_finds, macros=mpaths))
             addrs = m2.perform_matching()
             m3 = MasterOfPuppets(MatchConfig(pattern_pathstr=p, input_file=a, return_mode=MatchingReturnMode.matched_addrs_list, matching_mode=MatchingSearchMode.first_find, macros=mpaths))
@@ -428,6 +431,15 @@ def inventory_and_pairs(run):
     triples = [[i, j, i] for i in range(n) for j in range(n) if i != j]
     failing = [k for k in range(n) if fresh[k][0] == "EXC"]
     seqs += [t for idx, t in enumerate(triples) if idx % (7 if tier() == "quick" else 1) == 0 or t[1] in failing]  # A, failing B, A: always
+    # matcher objects constructed FIRST and run afterwards (each must be compiled and run with its own options)
+    from vlib import jasmapi as _japi
+
+    docs = [RULES[k] for k in (1, 0, 2, 0)]
+    got = _japi.constructed_first_results([{kk: vv for kk, vv in d_.items() if not kk.startswith("_")} for d_ in docs], LISTING)
+    want = [[x.split("::", 1)[0] for x in fresh[k][1]] for k in (1, 0, 2, 0)] + [[x.split("::", 1)[0] for x in fresh[1][1]]]
+    run.count("traces_validated_against_impl")
+    if got != want:
+        run.failure("history/CONSTRUCTED-FIRST", f"rules 1, 0, 2, 0 constructed first and run afterwards (rule 1 run twice): {got}, each run first in a fresh process: {want}", {"kind": "history", "seq": [1, 0, 2, 0], "rules": RULES})
     # the input file changes (same path, same size, same mtime) between two operations with the same rule
     fresh_b = {k: run_ops([[k, 1]])[0] for k in (0, 3, 5, 6)}
     seqs_b = [[[k, v0], [k, v1]] for k in fresh_b for v0, v1 in ((0, 1), (1, 0))] + [[[k, 0], [k, 1], [k, 0]] for k in fresh_b]
